@@ -68,6 +68,9 @@ func XferSpecial(args []string) {
 		specialResend(res, outcomes, base, *seed, mine)
 	}
 	if on("multiselect") {
+		specialSpellings(res, outcomes, base, *seed, mine)
+	}
+	if on("multiselect") {
 		specialMultiSelect(res, outcomes, base, *seed, mine)
 	}
 	if on("symlink") {
@@ -660,6 +663,12 @@ func specialGeometry(res *Result, outcomes map[string]int, base string, seed int
 		res.Behaviours++
 		res.Distinct++
 		replay := map[string]any{"scenario": "large chunk sizes", "file_size": pr.size, "cfg": cfg, "outcome": o}
+		if cfg.Resume && err == nil {
+			// whatever metadata is on disk afterwards marks only chunks that are in the file (C05)
+			if m, _, serr := xfer.Scan(src, false); serr == nil {
+				inspectDisk(res, src, filepath.Join(dir, "out", filepath.Base(src)), m, pr.chunk, replay)
+			}
+		}
 		switch {
 		case err != nil:
 			res.AddDrift(map[string]any{"why": err.Error()})
@@ -786,6 +795,84 @@ func specialMultiSelect(res *Result, outcomes map[string]int, base string, seed 
 	}
 }
 
+
+// specialSpellings (C03 / C01): one hosted directory, spelled on the command line the ways people spell the directory
+// they are in or next to: ".", "./", "sub/..", "../proj", "proj/", an absolute path. The manifest comes from the real
+// ScanPaths and the sender opens the files through the application's real path resolver, both given the spelling as
+// typed; the process's working directory is where the user would be.
+func specialSpellings(res *Result, outcomes map[string]int, base string, seed int64, mine func() bool) {
+	type sp struct{ cwd, arg string }
+	home, _ := os.Getwd()
+	defer os.Chdir(home)
+	for si, c := range []sp{{"proj", "."}, {"proj", "./"}, {"proj", "sub/.."}, {"proj/sub", ".."}, {"proj/sub", "../"}, {"", "proj"}, {"", "proj/"}, {"", "./proj"}, {"other", "../proj"}, {"", "@abs"}} {
+		if !mine() {
+			continue
+		}
+		dir := filepath.Join(base, fmt.Sprintf("spell%d", si))
+		proj := filepath.Join(dir, "src", "proj")
+		if err := xfer.MakeTree(proj, []xfer.FileSpec{{Rel: "a.txt", Size: 300}, {Rel: "sub/b.bin", Size: 90}, {Rel: "sub/empty", Size: 0}}, seed+int64(si)); err != nil {
+			panic(err)
+		}
+		os.MkdirAll(filepath.Join(dir, "src", "other"), 0755)
+		if err := os.Chdir(filepath.Join(dir, "src", filepath.FromSlash(c.cwd))); err != nil {
+			res.AddDrift(map[string]any{"why": "chdir: " + err.Error()})
+			continue
+		}
+		arg := c.arg
+		if arg == "@abs" {
+			arg = proj
+		}
+		paths := []string{arg}
+		m, err := manifest.ScanPaths(paths)
+		if err != nil {
+			os.Chdir(home)
+			res.AddDrift(map[string]any{"why": "ScanPaths: " + err.Error(), "arg": arg})
+			continue
+		}
+		resolve, err := app.VerifBuildPathResolver(paths)
+		if err != nil {
+			os.Chdir(home)
+			res.AddDrift(map[string]any{"why": "resolver: " + err.Error(), "arg": arg})
+			continue
+		}
+		out := filepath.Join(dir, "out")
+		p := vnet.NewPair(vnet.Options{Mock: true})
+		ctx, cancel := context.WithTimeout(context.Background(), 20*time.Second)
+		recvErr := make(chan error, 1)
+		go func() {
+			_, err := transfer.RecvManifestMultiStream(ctx, p.End(vnet.B), out, transfer.Options{ParallelFiles: 2, Resume: true, NoRootDir: true, HashAlg: "crc32c"})
+			recvErr <- err
+		}()
+		sendErr := transfer.SendManifestMultiStream(ctx, p.End(vnet.A), ".", m, transfer.Options{ChunkSize: 64, ParallelFiles: 2, Resume: true, NoRootDir: true, ResolveFilePath: resolve})
+		rerr := <-recvErr
+		cancel()
+		p.Shutdown()
+		os.Chdir(home)
+		res.Behaviours++
+		res.Distinct++
+		replay := map[string]any{"working_directory": "src/" + c.cwd, "path_as_typed": c.arg, "send_err": errText(sendErr), "recv_err": errText(rerr)}
+		if sendErr != nil || rerr != nil {
+			outcomes["spelled selection: failed"]++
+			res.AddViolation(map[string]any{"property": "C03", "kind": "healthy_transfer_failed", "tree": "selection-spelled-relative-to-the-working-directory", "spelling": c.arg}, replay)
+			continue
+		}
+		var bad []string
+		for _, f := range []string{"a.txt", "sub/b.bin", "sub/empty"} {
+			want, _ := os.ReadFile(filepath.Join(proj, filepath.FromSlash(f)))
+			got, gerr := os.ReadFile(filepath.Join(out, "proj", filepath.FromSlash(f)))
+			if gerr != nil || !bytes.Equal(want, got) {
+				bad = append(bad, "proj/"+f)
+			}
+		}
+		if len(bad) > 0 {
+			replay["files_that_differ"] = bad
+			outcomes["spelled selection: differs"]++
+			res.AddViolation(map[string]any{"property": "C01", "kind": "both_succeed_tree_differs", "tree": "selection-spelled-relative-to-the-working-directory", "spelling": c.arg}, replay)
+		} else {
+			outcomes["spelled selection: identical"]++
+		}
+	}
+}
 
 // specialLongLag (C03): the data streams lag far behind the control stream - every FileEnd (and End) is
 // handled seconds before the chunk frames of the file arrive (a slow link with multi-MiB chunks queued).
